@@ -63,6 +63,7 @@ def _account(acc, drv):
     for ev in drv.trace:
         if ev.get("op") == "drain":
             continue
+        acc.count("trace-events")
         acc.count(f"cell:{ev['side']}:{ev['state_before']}:{ev['op']}")
         if ev["state_before"] == "CLOSED":
             acc.count("post-closure-calls")
